@@ -322,6 +322,12 @@ func init() {
 					scs = append(scs, sc{wParams{Dir: dir, Tree: "dir", Directory: true, Timeout: 5, DstPre: "c07:f--"}, kind.side, kind.del})
 					// -y onto an existing file: the stop can land inside the prefix-hash exchange (3 blocks of 64 bytes agree, the 4th differs)
 					scs = append(scs, sc{wParams{Dir: dir, Tree: "one:E:300", Overwrite: true, DstPre: "c08:same@200", HashStep: 64, Timeout: 5}, kind.side, kind.del})
+					if kind.del {
+						// what is removed is decided name by name: names that are prefixes of one another, and the same
+						// base name twice (stored as name and name.0)
+						scs = append(scs, sc{wParams{Dir: dir, Tree: "prefixnames", Timeout: 5}, kind.side, kind.del})
+						scs = append(scs, sc{wParams{Dir: dir, Tree: "samebase", Timeout: 5}, kind.side, kind.del})
+					}
 					if tier == "thorough" {
 						scs = append(scs, sc{wParams{Dir: dir, Tree: "small3", Protocol: 2, Timeout: 5}, kind.side, kind.del})
 						scs = append(scs, sc{wParams{Dir: dir, Tree: "dir", Directory: true, Overwrite: true, Timeout: 5}, kind.side, kind.del})
